@@ -20,6 +20,21 @@ CHECKS = {
                      'after every event the number of live connections/attempts, the destination of every write and the '
                      'absence of orphan transports are checked.',
                 ref='7 C12', note=E1_NOTE),
+    'C13': dict(level='model_checking', engine='E1',
+                technique='explicit-state BFS + deviation-bounded exploration of the real session objects under a virtual reactor',
+                text='Manual stop is issued in every state reached within the depth and followed by every continuation up to '
+                     'the depth (peer bytes, connect results, close completion, every pending timer, manual start); a monitor '
+                     'requires Cease iff Established, close, then no write and no connectTCP until manual start; manual start '
+                     'from stopped must connect at once and a nested cooperative continuation (first connect refused) must recover.',
+                ref='7 C13', note=E1_NOTE),
+    'C01': dict(level='model_checking', engine='E1',
+                technique='explicit-state BFS + deviation-bounded exploration with a reference RFC 4271 FSM stepped in lock-step',
+                text='A reference FSM (RFC 4271 section 8 profile, vf/spec_fsm.py, independent of yabgp) yields for every '
+                     '(state, event) the set of allowed outcomes (messages written, close, connect, next state); on every '
+                     'transition of the exhaustive exploration the outcome observed on the real objects must be a member; '
+                     'plus trace monitors (Established only after OPEN+KEEPALIVE both ways, NOTIFICATION => close + Idle, '
+                     'ignored events change nothing).',
+                ref='7 C01 + Appendix A', note=E1_NOTE),
 }
 
 NOT_YET = 'check not built yet in this session (see DESIGN.md section 7 for the plan); not claimed'
